@@ -173,9 +173,9 @@ func (w *World) Zero(t types.Type) string {
 	case *types.Pointer, *types.Map, *types.Chan, *types.Signature:
 		return "0"
 	case *types.Slice:
-		return "nil_slice"
+		return "(mk_slice 0 0 0 0)" // literal value: cvc5 wants a constant inside (as const ...)
 	case *types.Interface:
-		return "nil_iface"
+		return "(mk_iface 0 0)"
 	case *types.Struct:
 		if u.NumFields() == 0 {
 			return w.ctor(t)
